@@ -377,6 +377,51 @@ def gen_orderbook(rng, g, cfg, name, node, prices):
     return a
 
 
+def gen_scaled(rng, g, cfg, name, nodes, prices):
+    """ScaledAsset over a base asset whose variables are all dispatch variables"""
+    k = rng.choice(['SimpleContract', 'SimpleContract', 'Transport', 'Storage', 'Contract'])
+    sub = dict(cfg, p_coarse=0.0, p_periodic=0.0, p_no_simult=0.0, p_max_store=0.0, p_blocks=0.0, p_window=cfg.get('p_window_scaled_base', 0.2),
+               window_kinds=['inside', 'left', 'right'])
+    if k in ('Transport',) and len(nodes) < 2:
+        k = 'SimpleContract'
+    bn = name + '_base'
+    if k == 'SimpleContract':
+        base = gen_simple_contract(rng, g, sub, bn, rng.choice(nodes), prices)
+    elif k == 'Contract':
+        base = gen_contract(rng, g, sub, bn, rng.choice(nodes), prices)
+    elif k == 'Transport':
+        n1, n2 = rng.sample(nodes, 2)
+        base = gen_transport(rng, g, sub, bn, n1, n2, prices)
+    else:
+        base = gen_storage(rng, g, sub, bn, [rng.choice(nodes)], prices)
+    a = {'kind': 'ScaledAsset', 'name': name, 'base': base, 'nodes': base['nodes']}
+    mode = rng.choice(['fixed', 'free', 'free'])
+    a['norm_scale'] = rng.choice([1.0, 2.0, 0.5, 4.0])
+    if mode == 'fixed':
+        a['min_scale'] = a['max_scale'] = rng.choice([0.5, 1.0, 2.0, 3.0])
+    else:
+        a['min_scale'] = rng.choice([0.0, 0.0, 0.5])
+        a['max_scale'] = a['min_scale'] + rng.choice([1.0, 2.0, 4.0])
+    a['fix_costs'] = rng.choice([0.0, 0.125, 1.0, 2.5])
+    return a
+
+
+def gen_structured(rng, g, cfg, name, nodes, prices):
+    """StructuredAsset wrapping a small inner portfolio with one internal node"""
+    ext = [rng.choice(nodes)]
+    inner_node = name + '_in'
+    sub = dict(cfg, p_coarse=0.0, p_periodic=0.0, p_no_simult=0.0, p_max_store=0.0, p_blocks=0.0, p_window=0.2, window_kinds=['inside', 'left', 'right'])
+    assets = [gen_transport(rng, g, sub, name + '_t', inner_node, ext[0], prices)]
+    r = rng.random()
+    if r < 0.5:
+        assets.append(gen_storage(rng, g, sub, name + '_s', [inner_node], prices))
+    assets.append(gen_simple_contract(rng, g, sub, name + '_c', inner_node, prices, market=(r > 0.3)))
+    if rng.random() < 0.4:
+        assets.append(gen_simple_contract(rng, g, sub, name + '_x', ext[0], prices))
+    rng.shuffle(assets)
+    return {'kind': 'StructuredAsset', 'name': name, 'nodes': ext, 'assets': assets}
+
+
 NAMES = ['a', 'b1', 'c', 'dd', 'e_5', 'f', 'g', 'h2', 'k', 'm']
 
 
@@ -424,6 +469,10 @@ def gen_portfolio(rng, cfg):
             assets.append(gen_multi(rng, g, cfg, nm(), ns, prices))
         elif k == 'OrderBook':
             assets.append(gen_orderbook(rng, g, cfg, nm(), rng.choice(nodes), prices))
+        elif k == 'ScaledAsset':
+            assets.append(gen_scaled(rng, g, cfg, nm(), nodes, prices))
+        elif k == 'StructuredAsset':
+            assets.append(gen_structured(rng, g, cfg, nm(), nodes, prices))
     rng.shuffle(assets)
     return {'grid': g, 'prices': prices, 'assets': assets, 'opts': {}}
 
